@@ -191,12 +191,13 @@ Definition lobs_eqb (a b : list nat * bool * list (nat * (list nat * bool))) : b
   list_nat_eqb va vb && Bool.eqb oa ob &&
   list_nat_eqb (map fst ca) (map fst cb) &&
   forallb (fun p => list_nat_eqb (fst (snd p)) va && Bool.eqb (snd (snd p)) oa) ca.
-(** [n] vertices, initial originInside [oi0]; per Query the observer reports the vertex order
-    (as original positions), ContainsOrigin, and the shape ids found in the loop's cell map *)
-Definition loop_case (n : nat) (oi0 : bool) (h : list lop) (cls : nat)
+(** initial vertices [vs0] as codes (positions; 1000 = the empty-loop point, 1001 = the full-loop
+    point), initial originInside [oi0]; per Query the observer reports the vertex order in the
+    same codes, ContainsOrigin, and the shape ids found in the loop's cell map *)
+Definition loop_case (vs0 : list nat) (oi0 : bool) (h : list lop) (cls : nat)
            (observed : list (list nat * bool * list nat)) : bool :=
-  match run (lstep (n + 1) (n + 2) (fun _ _ => tt) tt (fun _ => true) apply index_reset)
-            (loop_init (fun _ => oi0) (fun _ _ => tt) (seq 0 n)) h with
+  match run (lstep 1000 1001 (fun _ _ => tt) tt (fun _ => true) apply index_reset)
+            (loop_init (fun _ => oi0) (fun _ _ => tt) vs0) h with
   | Ok (_, outs) => (cls =? 0) && (length outs =? length observed) &&
       forallb (fun p => let '(vs, oi, cs) := fst p in let '(vs', oi', ids) := snd p in
                  list_nat_eqb vs vs' && Bool.eqb oi oi' && list_nat_eqb (map fst cs) ids)
